@@ -39,6 +39,8 @@ def _remap(x, off, boff):
     for k, v in x.items():
         if k == 'l' and isinstance(v, int):
             out[k] = v + off
+        elif k == 'local' and isinstance(v, int) and x.get('k') == 'index':
+            out[k] = v + off
         elif k in ('target', 'otherwise', 'unwind') and isinstance(v, int):
             out[k] = v + boff
         elif k == 'targets' and isinstance(v, list):
